@@ -5,5 +5,8 @@ CONSTANTS
   MaxFaults = 3
   K = 2
   ByName = TRUE
+  SkipPingWhenBusy = FALSE
+  KeyByIdentity = FALSE
 INVARIANT Converges
+INVARIANT Refreshed
 CHECK_DEADLOCK FALSE
